@@ -5,6 +5,7 @@ import (
 	"encoding/hex"
 	"fmt"
 	"os"
+	"os/exec"
 	"sort"
 	"strings"
 	"sync"
@@ -47,6 +48,7 @@ type HarnessResult struct {
 	SamplePaths  []string
 	Observed     [][]string
 	Terms        int64
+	Solver       string
 	InitNotes    []string
 }
 
@@ -76,7 +78,7 @@ func Explore(p *Program, entry *ssa.Function, cfg Config, opts ExploreOpts) *Har
 		opts.Workers = 8
 	}
 	if len(opts.SolverCmd) == 0 {
-		opts.SolverCmd = []string{"z3", "-in"}
+		opts.SolverCmd = DefaultSolver(cfg.Mode)
 	}
 	if opts.TimeoutMs == 0 {
 		opts.TimeoutMs = 60000
@@ -89,6 +91,23 @@ func Explore(p *Program, entry *ssa.Function, cfg Config, opts ExploreOpts) *Har
 	funcs := map[*ssa.Function]bool{}
 	violSeen := map[string]bool{}
 	var wg sync.WaitGroup
+	stopProgress := make(chan struct{})
+	if os.Getenv("VERIF_PROGRESS") != "" {
+		go func() {
+			tk := time.NewTicker(10 * time.Second)
+			defer tk.Stop()
+			for {
+				select {
+				case <-stopProgress:
+					return
+				case <-tk.C:
+					mu.Lock()
+					fmt.Fprintf(os.Stderr, "  progress %s: paths=%d queue=%d active=%d ends=%v decisions=%d t=%.0fs\n", entry.Name(), res.Paths, len(stack), active, res.Ends, res.Decisions, time.Since(t0).Seconds())
+					mu.Unlock()
+				}
+			}
+		}()
+	}
 	for w := 0; w < opts.Workers; w++ {
 		wg.Add(1)
 		go func(w int) {
@@ -197,6 +216,7 @@ func Explore(p *Program, entry *ssa.Function, cfg Config, opts ExploreOpts) *Har
 		}(w)
 	}
 	wg.Wait()
+	close(stopProgress)
 	for f := range funcs {
 		res.Funcs = append(res.Funcs, f.String())
 		res.FuncDigests[f.String()] = p.funcDigest(f)
@@ -204,6 +224,7 @@ func Explore(p *Program, entry *ssa.Function, cfg Config, opts ExploreOpts) *Har
 	sort.Strings(res.Funcs)
 	res.WallSec = time.Since(t0).Seconds()
 	res.Terms = smt.NumTerms()
+	res.Solver = strings.Join(opts.SolverCmd, " ")
 	return res
 }
 
@@ -241,4 +262,20 @@ func (r *HarnessResult) Summary() string {
 	fmt.Fprintf(&sb, "%s: paths=%d ends=%v obligations=%d discharged=%d (trivial %d) violations=%d queries=%d solver=%.1fs wall=%.1fs",
 		r.Entry, r.Paths, r.Ends, r.Obligations, r.Discharged, r.Trivial, len(r.Violations), r.Queries, r.SolverSec, r.WallSec)
 	return sb.String()
+}
+
+// DefaultSolver: for bit-vector harnesses z3 5.1.0 (installed as z3-new) when present, else the system z3. On the table-lookup
+// queries of this code base 5.1.0 is two orders of magnitude faster than 4.8.12.
+func DefaultSolver(mode string) []string {
+	if s := os.Getenv("VERIF_SOLVER"); s != "" {
+		return strings.Fields(s)
+	}
+	if mode == "int" {
+		// linear integer arithmetic with Skolem digits: 4.8.12 is the faster and more complete of the two here
+		return []string{"z3", "-in"}
+	}
+	if p, err := exec.LookPath("z3-new"); err == nil {
+		return []string{p, "-in"}
+	}
+	return []string{"z3", "-in"}
 }
